@@ -509,7 +509,18 @@ func (m *Machine) conv(tdst, tsrc types.Type, x value) value {
 		}
 		v := x.(*Term)
 		if isString(ud) {
-			// integer -> string (rune)
+			// integer -> string (rune): an ASCII rune is one byte (kept symbolic); others are concretised
+			if !v.IsConst() {
+				var ascii *Term
+				if ks.signed {
+					ascii = tt.BAnd(tt.Cmp(OpSLe, tt.Const(v.W, 0), v), tt.Cmp(OpSLt, v, tt.Const(v.W, 0x80)))
+				} else {
+					ascii = tt.Cmp(OpULt, v, tt.Const(v.W, 0x80))
+				}
+				if m.path.Branch(ascii, "rune-to-string-ascii") {
+					return &symstr{b: []value{tt.Extract(v, 7, 0)}}
+				}
+			}
 			r := rune(m.path.Concretise(v, "rune"))
 			if ks.signed {
 				r = rune(sext(uint64(r), v.W))
